@@ -105,3 +105,18 @@ def c02_xor_no_key_is_copy(case, result):
     items = [c for c in xc if c in yc] if lc is None else (lc[1] if lc[0] == 'list' else [lc])
     ny = len(case['y'][0][1]) if case['y'] else 0
     return len(items) == 0 and ny > 0 and 'anti-join' in (result.get('viol') or '')
+
+def c19_mixed_key_types(case, result):
+    # the lifted argument contains a dict whose keys are not mutually comparable (e.g. {'a': .., 1: ..}): loops._wrapped sorts the keys
+    # (sorted(arg.keys())) and raises TypeError.  Key ids (harness/props/c19.py): 0-9 str, 10-29 int/float, 30-39 tuple, 40 None.
+    if case.get('kind') not in ('loop', 'lib') or result.get('status') != 'TypeError':
+        return False
+    cls = lambda k: 0 if k < 10 else 1 if k < 30 else 2 if k < 40 else 3
+    def mixed(s):
+        if not isinstance(s, dict):
+            return False
+        if 'D' in s:
+            items = s['D'][1]
+            return len({cls(k) for k, _ in items}) > 1 or any(mixed(v) for _, v in items)
+        return any(mixed(x) for x in s.get('L', s.get('T', [])))
+    return mixed(case['arg'])
